@@ -1062,6 +1062,14 @@ func callbackQuery(shape, st, code, stSym, codeSym string) (string, []any, []any
 		return "state=" + e(st) + "&code=" + e(code) + "#state=bogus", one(stSym), one(codeSym)
 	case "encodedKeys":
 		return "%73tate=" + e(st) + "&%63ode=" + e(code), one(stSym), one(codeSym)
+	case "errorDenied":
+		return "error=access_denied&state=" + e(st), one(stSym), []any{}
+	case "errorRetriable":
+		return "error=login_required&state=" + e(st), one(stSym), []any{}
+	case "errorWithDescription":
+		return "error=server_error&error_description=try%20again&error_uri=https%3A%2F%2Fidp.example%2Fe&state=" + e(st), one(stSym), []any{}
+	case "errorNoState":
+		return "error=access_denied", []any{}, []any{}
 	}
 	panic("unknown qshape " + shape)
 }
